@@ -109,7 +109,53 @@ def check(j, seqs, seed):
     return list(kinds.values())
 
 
+def query_orders(seed):
+    """queries are read-only: whatever the order (and repetition) in which the three levels are asked for their message, each answer
+    is the one a freshly processed chunk gives when asked only that.  Scenes where the levels disagree: sparse decks that are 0 okta
+    as slices and 1 okta once merged into a group, around / inside the MSA buffer zone."""
+    from ampycloud.data import CeiloChunk
+    rng = random.Random(seed * 11 + 5)
+    fails = []
+    levels = ['slices', 'groups', 'layers']
+    for variant in range(4):
+        dts = [-870. + 30 * i for i in range(30)]
+        rows = {(c, t): (np.nan, 0) for c in 'AB' for t in dts}
+        lo = rng.choice([3000., 1200., 3000., 5000.])
+        for c, h0 in (('A', lo), ('B', lo + 240.)):
+            for t in rng.sample(dts, 3):
+                rows[(c, t)] = (h0 + rng.uniform(0, 20), 1)
+        df = _df([(c, t, h, ty) for (c, t), (h, ty) in rows.items()])
+        prms = [{'MSA': 2500, 'MSA_HIT_BUFFER': 1500}, {'MSA': 2500, 'MSA_HIT_BUFFER': 0}, {'MSA': None}, {'MSA': 5100, 'MSA_HIT_BUFFER': 200}][variant]
+
+        def processed():
+            c = CeiloChunk(df, prms=dict(prms))
+            c.find_slices(); c.find_groups(); c.find_layers()
+            return c
+        with warnings.catch_warnings():
+            warnings.simplefilter('ignore')
+            try:
+                alone = {w: processed().metar_msg(w) for w in levels}
+                flag0 = processed().clouds_above_msa_buffer
+                for order in itertools.product(levels, repeat=3):
+                    c = processed()
+                    for i, w in enumerate(order):
+                        m = c.metar_msg(w)
+                        if m != alone[w]:
+                            fails.append(f"queries {list(order[:i + 1])}: metar_msg('{w}') -> '{m}' instead of '{alone[w]}' (prms {prms})")
+                            break
+                    if c.clouds_above_msa_buffer != flag0:
+                        fails.append(f'queries {list(order)}: the high-cloud flag changed from {flag0} to {c.clouds_above_msa_buffer} (prms {prms})')
+            except Exception as e:
+                fails.append(f'query-order scene {variant}: {type(e).__name__}: {str(e)[:80]}')
+    kinds = {}
+    for f in fails:
+        kinds.setdefault(f.split(': ', 1)[1][:40], f)
+    return list(kinds.values())
+
+
 def _worker(a):
+    if a[0] == 'queries':
+        return query_orders(a[2])
     return check(*a)
 
 
@@ -122,15 +168,19 @@ def bounded(run):
     extra = [('find_slices', 'find_groups', 'find_layers') + s for s in itertools.product(OPS, repeat=2)]
     seqs = allseq + extra
     chunks = [seqs[i::15] for i in range(15)]
-    tasks = [(j, ch, run.seed) for j in range(4) for ch in chunks]
+    tasks = [(j, ch, run.seed) for j in range(4) for ch in chunks] + [('queries', None, run.seed)]
     res = _pool_map(_worker, tasks)
     failures = []
     for (j, ch, _), fails in zip(tasks, res):
         for f in fails:
+            if j == 'queries':
+                failures.append({'obligation': 'bounded.C14.query_order', 'scene': 'sparse decks around the MSA', 'what': f,
+                                 'rerun': 'cd /verif && ./check C14'})
+                continue
             failures.append({'obligation': 'bounded.C14.sequences', 'scene': f'scenes14({j})', 'what': f,
                              'rerun': 'cd /verif && PYTHONPATH=${PYVC_REPO_SRC:-/repo/src}:/verif .venv312/bin/python -m bounded.c14 ' + str(j) + ' "' + f.split(':')[0] + '"'})
     return {'label': 'B (bounded, never counted as proved)',
-            'bound': f'all {len(allseq)} call sequences of length <= {L} over the 10 operations + {len(extra)} continuations of the canonical run, on 4 scenes (merge, split, plain, overlapping slices)',
+            'bound': f'all {len(allseq)} call sequences of length <= {L} over the 10 operations + {len(extra)} continuations of the canonical run, on 4 scenes (merge, split, plain, overlapping slices); all 27 orders of 3 message queries on 4 scenes where the levels disagree',
             'sequences': len(seqs) * 4, 'exhaustive_up_to_length': L, 'failures': _one_per_kind(failures), 'n_failures': len(failures)}
 
 
